@@ -136,6 +136,14 @@ func (g *Gen) allianceVal() string {
 }
 func (g *Gen) aname() string {
 	as := g.w.App.AllianceKeeper.GetAllAssets(g.w.Ctx)
+	if g.family == "takerate" && g.r.Intn(10) < 6 {
+		// stake goes into assets that are still in their warm-up period more often than not
+		for _, a := range as {
+			if !a.RewardsStarted(g.w.Ctx.BlockTime()) {
+				return a.Denom
+			}
+		}
+	}
 	if len(as) == 0 || g.r.Intn(40) == 0 {
 		return pick(g.r, g.w.Denoms())
 	}
@@ -287,6 +295,10 @@ func (g *Gen) pattern() []Event {
 			}
 			evs = append(evs, Event{Ev: "SlashHook", V: v, F: g.fraction()})
 			evs = append(evs, endOfBlock()...)
+			if g.family == "genesis" {
+				// export and re-import while the shared buckets are pending, then slash and let them mature on the imported state
+				evs = append(evs, block(1, Event{Ev: "ExportImport"}, Event{Ev: "SlashHook", V: g.vname(), F: g.fraction()})...)
+			}
 			if U > 1 {
 				evs = append(evs, block(U-1)...)
 			}
@@ -309,6 +321,9 @@ func (g *Gen) pattern() []Event {
 			}
 			evs = append(evs, Event{Ev: "Redelegate", D: d, Src: dst, Dst: g.otherVal(dst), A: a, X: "1"}) // onward hop: must be refused
 			evs = append(evs, endOfBlock()...)
+			if g.family == "genesis" {
+				evs = append(evs, block(1, Event{Ev: "ExportImport"}, Event{Ev: "Redelegate", D: d, Src: dst, Dst: g.otherVal(dst), A: a, X: "1"})...)
+			}
 			if U > 1 {
 				evs = append(evs, block(U-1, Event{Ev: "SlashHook", V: v, F: g.fraction()})...)
 			}
@@ -567,11 +582,11 @@ func DefaultCfg(r *rand.Rand, family string, big bool, clean bool) WorldCfg {
 	}
 	if family == "takerate" {
 		cfg.Interval = pick(r, []int64{2, 3, 5, 10, 20})
-		if r.Intn(4) == 0 {
+		if r.Intn(5) < 2 {
 			// only an asset in warm-up carries a take rate: nothing is chargeable until it starts
 			cfg.Assets[0].Take = "0"
 			cfg.Assets[1].Take = pick(r, []string{"0.1", "0.5"})
-			cfg.Assets[1].Start = pick(r, []int64{15, 30, 60})
+			cfg.Assets[1].Start = pick(r, []int64{40, 80, 150})
 			cfg.Assets[1].LastChg = cfg.Assets[1].Start
 		}
 	}
